@@ -507,3 +507,16 @@ func Closed(e expr.Expr) bool {
 		return false
 	})
 }
+
+// CountLess returns the number of conditional nodes of e (shared subtrees counted each
+// time they occur).
+func CountLess(e expr.Expr) int {
+	n := 0
+	if _, ok := e.(expr.Less); ok {
+		n = 1
+	}
+	for _, ch := range Children(e) {
+		n += CountLess(ch)
+	}
+	return n
+}
